@@ -97,6 +97,8 @@ def gen_loader_case(rng, tier, cls):
             zero_len, dynamic = True, True
     if fam == "cw":
         nb, dynamic = 1, False
+        if cls == "cw_loader" and rng.random() < 0.4:
+            zero_len = True  # a 0-frame utterance contributes no window but keeps its id and its size entry
     lens = _lengths(rng, N, style)
     if zero_len and N:
         lens[rng.randrange(N)] = 0  # at most one, so that a row without content is still identifiable
